@@ -923,7 +923,7 @@ func stopConfLine(r *Rand) (string, int) {
 		del = 1
 	}
 	return fmt.Sprintf("conf threads=%d payload=%d chunk=%d order=%s lastdelay=0 delete=%d attempts=%d scandelay=%d",
-		threads, payload, chunk, order, del, 50, []int{100, 200, 400}[r.Intn(3)]), payload
+		threads, payload, chunk, order, del, []int{50, 50, 3, 1}[r.Intn(4)], []int{100, 200, 400}[r.Intn(3)]), payload
 }
 
 func stopFiles(r *Rand, payload int) []string {
@@ -950,6 +950,12 @@ func stopFiles(r *Rand, payload int) []string {
 func stopFaults(r *Rand) []string {
 	var out []string
 	n := r.Intn(4)
+	if r.Chance(0.2) {
+		// a burst of negative verdicts (more than the retry channel may hold)
+		for i := r.Range(2, 5); i > 0; i-- {
+			out = append(out, []string{"fault poll failed", "fault poll none"}[r.Intn(2)])
+		}
+	}
 	for i := 0; i < n; i++ {
 		switch r.Intn(8) {
 		case 0:
@@ -1031,6 +1037,16 @@ func (stopComp) Corpus() [][]string {
 		{"conf threads=1 payload=32 chunk=0 order=alpha lastdelay=0 delete=0 attempts=50 scandelay=200",
 			"file g.a 32 3600", "file g.b 32 3590", "file g.c 32 3580", "file g.d 32 3570", "file g.e 32 3560", "file g.f 32 3550", "file g.g 32 3540",
 			"sweep graceful all"},
+		// more failed verdicts than the retry channel holds (2 * threads) after a graceful stop: the retry workers
+		// have left, finish() must not wait for room in chRetry (it gives up on ANY stop)
+		{"conf threads=1 payload=32 chunk=0 order=alpha lastdelay=0 delete=0 attempts=50 scandelay=200",
+			"file g.a 20 3600", "file g.b 20 3590", "file g.c 20 3580", "file g.d 20 3570", "file g.e 20 3560",
+			"fault poll failed", "fault poll failed", "fault poll failed",
+			"stopat graceful 0", "sweep graceful 6"},
+		{"conf threads=2 payload=32 chunk=0 order=fifo lastdelay=0 delete=0 attempts=1 scandelay=200",
+			"file g.a 20 3600", "file g.b 20 3590", "file g.c 20 3580", "file h.d 20 3570", "file h.e 20 3560", "file k.f 20 3550",
+			"fault poll none", "fault poll none", "fault poll failed",
+			"stopat graceful 0", "stopat graceful @sent"},
 		// last-delay shorter than the age of the files withholds nothing
 		{"conf threads=2 payload=64 chunk=0 order=lifo lastdelay=5 delete=0 attempts=50 scandelay=200",
 			"file g.a 27 3600", "file g.b 150 3590", "file h.c 1 3580", "file g.empty 0 3500",
